@@ -1178,6 +1178,47 @@ def total_probe_with_a_variable_bound_twice_raises_out_of_the_call():
     return r != 0
 
 
+def non_ascii_variable_refused():
+    """C10: a local whose name is not ASCII is a variable of the function like any other (fix fcac9d4: the lexer of selectors knew
+    ASCII letters only and raised SyntaxError)."""
+    def f(x):
+        é = x + 1
+        naïve_π = é * 2
+        return naïve_π
+    out = []
+    try:
+        with probing("f(é) > naïve_π") as prb:
+            prb.subscribe(out.append)
+            r = f(1)
+    except BaseException as e:  # noqa
+        print("activation / call failed:", type(e).__name__, e)
+        return True
+    print("events:", out, "result:", r)
+    return not (out == [{"é": 2, "naïve_π": 4}] and r == 4)
+
+
+def total_record_repeats_a_value_once_per_way_of_matching():
+    """C07 (recorded): `f(x) > g > h(z)` with g re-entered beneath itself -- the call h(0) below g(1) > g(0) fits the chain in two ways,
+    and the total record of f lists its z twice (the kept pair and its child are both registered again by the nested g)."""
+    def h(z):
+        return z
+
+    def g(n):
+        if n > 0:
+            g(n - 1)
+        return h(n * 100)
+
+    def f(x):
+        return g(1)
+
+    out = []
+    with probing("f(x) > g > h(z)", raw=True) as prb:
+        prb.subscribe(lambda d: out.append({k: list(c.values) for k, c in d.items()}))
+        f(1)
+    print("records:", out)
+    return out != [{"x": [1], "z": [0, 100]}]
+
+
 # case -> properties (the scenario corpus of DESIGN 2.6: every case is replayed natively by the quick check of its properties)
 CASES = {
     "tuple_unpack_generator": ["C01"], "tuple_unpack_dict": ["C01"], "starred_target": ["C01"], "subscript_index_twice": ["C01"],
@@ -1199,7 +1240,7 @@ CASES = {
     "overlay_left_while_a_generator_is_suspended_still_receives_its_events": ["C05"], "generator_shell_is_transparent": ["C09", "C05", "C01", "C06", "C02", "C07", "C03", "C17"], "probe_silenced_when_an_earlier_generator_finishes": ["C02", "C06"],
     "suspended_generator_in_a_local_outlives_its_frame": ["C09"], "slice_bounds_evaluated_once": ["C01", "C02"], "match_statement_under_tooling": ["C01", "C10", "C02"], "provenance_follows_python_scoping": ["C10"], "augmented_attribute_store_is_a_binding": ["C04", "C02"],
     "stale_generator_answer_is_not_remembered": ["C05", "C07", "C02", "C09"],
-    "hidden_temporaries_keep_generator_alive": ["C09"], "same_name_at_two_placements": ["C14"],
+    "hidden_temporaries_keep_generator_alive": ["C09"], "non_ascii_variable_refused": ["C10"], "total_record_repeats_a_value_once_per_way_of_matching": ["C07"], "same_name_at_two_placements": ["C14"],
 }
 
 
